@@ -17,6 +17,10 @@ def main():
                 sys.exit(mod.replay(a.replay))
             from .replay import replay as generic_replay
             sys.exit(generic_replay(a.pid, a.replay))
+        # process-wide prelude of legitimately failing library calls (see errpaths.failing_calls): the recorded events
+        # are then judged in a process where earlier calls have failed
+        from . import errpaths, report as _report
+        _report.PRELUDE = errpaths.failing_calls()
         rep = mod.run(a.tier)
         sys.exit(rep.finish())
     except (MachineryError, Exception) as e:
